@@ -187,6 +187,54 @@ fn hostile(known_f1: bool, f1_hits: &mut u64) -> Result<u64, String> {
             }
         }
     }
+    // constants that determine array sizes (usize, directly external or through a constant expression) supplied with a literal of
+    // another type: an error, never a panic (the direct form panicked in compile_with_constants before fix 4d1e61e)
+    let usizel = |n| Literal::NumUnsigned(n, UnsignedNumType::Usize);
+    let size_srcs = [
+        "const N: usize = PARTY_0::N;\npub fn main(x: [u8; N]) -> u8 { x[0] }",
+        "const N: usize = PARTY_0::N;\nconst M: usize = PARTY_1::N;\npub fn main(x: [u8; N], y: [u8; M]) -> u8 { x[0] ^ y[0] }",
+        "const N: usize = max(PARTY_0::N, PARTY_1::N);\npub fn main(x: [u8; N]) -> u8 { x[0] }",
+        "const N: usize = PARTY_0::N + 1usize;\npub fn main(x: u8) -> u8 { let a = [x; N]; a[0] }",
+    ];
+    let wrong: Vec<(&str, Literal)> = vec![
+        ("u8 for usize", Literal::NumUnsigned(2, UnsignedNumType::U8)),
+        ("u64 for usize", Literal::NumUnsigned(2, UnsignedNumType::U64)),
+        ("bool for usize", Literal::True),
+        ("i32 for usize", Literal::NumSigned(-1, garble_lang::token::SignedNumType::I32)),
+        ("unsuffixed for usize", Literal::NumUnsigned(2, UnsignedNumType::Unspecified)),
+    ];
+    for src2 in size_srcs {
+        for (what, l) in &wrong {
+            for bad_party in ["PARTY_0", "PARTY_1"] {
+                if bad_party == "PARTY_1" && !src2.contains("PARTY_1") { continue; }
+                n += 1;
+                let good = if bad_party == "PARTY_0" { "PARTY_1" } else { "PARTY_0" };
+                let c = mk(&[(bad_party, "N", l.clone()), (good, "N", usizel(2))]);
+                match catch_unwind(AssertUnwindSafe(|| garble_lang::compile_with_constants(src2, c))) {
+                    Err(_) => return Err(format!("{what} ({bad_party}::N in `{}`): compile_with_constants panics", src2.replace('\n', " "))),
+                    Ok(Ok(_)) => {
+                        // an unsuffixed literal may be accepted as usize; everything else must be refused
+                        if *what != "unsuffixed for usize" { return Err(format!("{what} ({bad_party}::N in `{}`): compilation succeeds", src2.replace('\n', " "))); }
+                    }
+                    Ok(Err(e)) => {
+                        let msg = format!("{e:?}");
+                        if !msg.contains("\"N\"") && !msg.contains("::N") {
+                            if known_f1 && msg.contains("InvalidLiteralType") && !msg.contains("MissingConstant") { *f1_hits += 1; } else {
+                                return Err(format!("{what} ({bad_party}::N): the error does not name the constant: {msg}"));
+                            }
+                        }
+                    }
+                }
+            }
+        }
+        // missing altogether
+        n += 1;
+        match catch_unwind(AssertUnwindSafe(|| garble_lang::compile_with_constants(src2, mk(&[])))) {
+            Err(_) => return Err(format!("missing size constant in `{}`: compile_with_constants panics", src2.replace('\n', " "))),
+            Ok(Ok(_)) => return Err(format!("missing size constant in `{}`: compilation succeeds", src2.replace('\n', " "))),
+            Ok(Err(e)) => { let msg = format!("{e:?}"); if !msg.contains("MissingConstant") { return Err(format!("missing size constant: unexpected error {msg}")); } }
+        }
+    }
     // an extra, undeclared constant is harmless
     n += 1;
     match catch_unwind(AssertUnwindSafe(|| garble_lang::compile_with_constants(src, mk(&[("PARTY_0", "A", u16l(1)), ("PARTY_1", "B", u16l(2)), ("PARTY_1", "Z", u16l(3))])))) {
